@@ -34,7 +34,6 @@ theorem comb_simRel (H : ReplHyp D pre post out) (hwf : e.wf D.ctx = true)
     (hnd : SchedNodup sched) (hl : ∀ k, pre.length ∈ (sched k).procs) (fuel : Nat) :
     SimRel (mkSim D (combKindsA pre post out e) scripts sched fuel) (mkSim D (combKindsB pre post out e) scripts sched fuel)
       (CombRel D pre out e) (writeOk D.ctx out) where
-  nproc := combKinds_length
   ctx := rfl
   doms := rfl
   scripts := rfl
@@ -43,21 +42,27 @@ theorem comb_simRel (H : ReplHyp D pre post out) (hwf : e.wf D.ctx = true)
   next := fun _ _ hr => hr.1.next
   now := fun _ _ hr => hr.1.now
   obs := fun _ _ hr => hr.1.obs
-  timers := fun _ _ hr => hr.1.timers
-  loc := fun a b t hr => getLoc_of_off hr.1 _ (by
-    show (combKindsA pre post out e).length + t ≠ pre.length
-    rw [combKindsA_length]; omega)
+  loc := fun a b t hr => by
+    show getLoc b ((combKindsB pre post out e).length + t) = getLoc a ((combKindsA pre post out e).length + t)
+    rw [combKinds_length]
+    exact getLoc_of_off hr.1 _ (by rw [combKindsA_length]; omega)
   setLoc := by
     intro a b t l ⟨hm, lA, lB, hlA, hlB, hq⟩
     have ho : (combKindsA pre post out e).length + t ≠ pre.length := by rw [combKindsA_length]; omega
     obtain ⟨m, eA, eB⟩ := mid_setLoc hm _ ho l
+    have elen : (combKindsB pre post out e).length = (combKindsA pre post out e).length := combKinds_length
+    show CombRel D pre out e (setLoc a ((combKindsA pre post out e).length + t) l) (setLoc b ((combKindsB pre post out e).length + t) l)
+    rw [elen]
     exact ⟨m, lA, lB, eA.trans hlA, eB.trans hlB, hq⟩
   addObs := by
     intro a b x ⟨hm, lA, lB, hlA, hlB, hq⟩
     exact ⟨⟨hm.curr, hm.next, hm.timers, hm.now, hm.deltas, by simp only [hm.obs], hm.len, hm.off⟩, lA, lB, hlA, hlB, hq⟩
   setTimer := by
     intro a b t x ⟨hm, lA, lB, hlA, hlB, hq⟩
-    exact ⟨⟨hm.curr, hm.next, by simp only [hm.timers], hm.now, hm.deltas, hm.obs, hm.len, hm.off⟩, lA, lB, hlA, hlB, hq⟩
+    have elen : (combKindsB pre post out e).length = (combKindsA pre post out e).length := combKinds_length
+    exact ⟨⟨hm.curr, hm.next, by
+      show b.timers.set ((combKindsB pre post out e).length + t) x = a.timers.set ((combKindsA pre post out e).length + t) x
+      rw [elen, hm.timers], hm.now, hm.deltas, hm.obs, hm.len, hm.off⟩, lA, lB, hlA, hlB, hq⟩
   write := by
     intro a b tgt v ⟨hm, lA, lB, hlA, hlB, hq⟩ hw
     obtain ⟨hcur, hn, hcase⟩ := hq
